@@ -53,6 +53,13 @@ pub fn callee_facts<'tcx>(
         .filter_map(|g| g.as_type().map(|t| J::s(crate::ty_str(tcx, t))))
         .collect();
     o.push(("targs", J::Arr(a)));
+    let ca: Vec<J> = args
+        .iter()
+        .filter_map(|g| g.as_const().map(|c| J::s(format!("{}", c))))
+        .collect();
+    if !ca.is_empty() {
+        o.push(("cargs", J::Arr(ca)));
+    }
     if let Some(assoc) = tcx.opt_associated_item(def_id) {
         o.push(("name", J::s(assoc.name().to_string())));
         let cont = assoc.container_id(tcx);
@@ -403,9 +410,10 @@ impl<'a, 'tcx> Dumper<'a, 'tcx> {
                     }
                 }
             }
-            ExprKind::ConstParam { def_id, .. } => {
+            ExprKind::ConstParam { param, def_id } => {
                 k!("const_param");
                 o.push(("def", J::s(self.cx.path(*def_id))));
+                o.push(("name", J::s(param.name.to_string())));
             }
             ExprKind::StaticRef { def_id, .. } => {
                 k!("static");
